@@ -7,8 +7,8 @@ run loop) can lead to.  Every helper of the model is written in continuation-pas
 -/
 namespace Rtsp.ClientSm
 
-/-- the context is cancelled and mustClose is latched: the run loop is on its way out -/
-def Dying (s : St) : Prop := s.ctxDone = true ∧ s.mustClose = true
+/-- the context is cancelled: the run loop is on its way out, nothing blocks any more -/
+def Dying (s : St) : Prop := s.ctxDone = true
 
 theorem connOpen_dying {s s1 : St} (h : connOpen s = some s1) (hd : Dying s) : Dying s1 := by
   unfold connOpen at h
@@ -32,17 +32,18 @@ theorem startDo_dying {P : St → Prop} (s : St) (m : Meth) (skip : Bool) (tp : 
       · exact hE _ _ hd
       · rename_i s1 h1
         have h2 := sendReq_dying s1 .options 0 (connOpen_dying h1 hd)
-        simp only [h2.1, if_true]
-        exact hE _ _ (by simp [Dying])
+        have h3 : (sendReq s1 .options 0).ctxDone = true := h2
+        simp only [h3, if_true]
+        exact hE _ _ (by simpa [Dying] using h2)
     · exact hE _ _ hd
   · have h2 := sendReq_dying s m tp hd
+    have h3 : (sendReq s m tp).ctxDone = true := h2
     simp only []
     split
     · rename_i hsk
       exact hS hsk _ h2
-    · simp only [h2.1, if_true]
-      exact hE _ _ (by simp [Dying])
-
+    · simp only [h3, if_true]
+      exact hE _ _ (by simpa [Dying] using h2)
 
 theorem describeStart_dying {P : St → Prop} (s : St) (fs k : List Fr) (retK : St → Val → St)
     (hd : Dying s) (hR : ∀ s' v, Dying s' → P (retK s' v)) : P (describeStart s fs k retK) := by
@@ -92,8 +93,8 @@ theorem resetStart_dying {P : St → Prop} (c : Cfg) (s : St) (n : AfterReset) (
     P (resetStart c s n k retK) := by
   unfold resetStart
   split
-  · exact startDo_dying _ _ _ _ _ _ _ _ hd (fun s' _ h => afterReset_dying _ _ _ _ h hR)
-      (fun _ s' h => afterReset_dying _ _ _ _ h hR)
+  · exact startDo_dying _ _ _ _ _ _ _ _ hd (fun s' _ h => afterReset_dying _ _ _ _ (by simpa [Dying] using h) hR)
+      (fun _ s' h => afterReset_dying _ _ _ _ (by simpa [Dying] using h) hR)
   · exact afterReset_dying _ _ _ _ hd hR
 
 theorem commitSetup_dying (s : St) (a : SetupArgs) (p : Proto) (ch : Nat) (hd : Dying s) :
@@ -149,10 +150,11 @@ theorem frameRet_dying {P : St → Prop} (c : Cfg) (f : Fr) (k : List Fr) (retK 
     all_goals first
       | exact hR _ _ hd
       | (have h2 := sendReq_dying s m tp hd
+         have h3 : (sendReq s m tp).ctxDone = true := h2
          split
          · exact hR _ _ h2
-         · simp only [h2.1, if_true]
-           exact hR _ _ (by simp [Dying]))
+         · simp only [h3, if_true]
+           exact hR _ _ (by simpa [Dying] using h2))
   | optionsK =>
     cases v <;> simp only []
     all_goals first
@@ -206,7 +208,7 @@ theorem frameRet_dying {P : St → Prop} (c : Cfg) (f : Fr) (k : List Fr) (retK 
     all_goals first
       | exact hR _ _ hd
       | exact setupStart_dying _ _ _ _ _ hd hR
-  | resetK n => exact afterReset_dying _ _ _ _ hd hR
+  | resetK n saved => exact afterReset_dying _ _ _ _ (by simpa [Dying] using hd) hR
 
 
 /-! ### the same for error values only: under `Dying` every helper hands an ERROR to its continuation -/
@@ -245,6 +247,6 @@ theorem frameRet_dyingE {P : St → Prop} (c : Cfg) (f : Fr) (k : List Fr) (retK
     | exact hR _ _ hd
     | exact hR _ _ (hp _)
     | exact hR _ _ (by simpa [Dying] using hd)
-    | exact afterReset_dyingE _ _ _ _ hd hR
+    | exact afterReset_dyingE _ _ _ _ (by simpa [Dying] using hd) hR
 
 end Rtsp.ClientSm
